@@ -177,7 +177,16 @@ class Fresh:
                     if not ok:
                         return False, f"{e.id} = {unparse(b.value)[:40]} ({why})"
                 elif isinstance(b, ast.Assign):
-                    # tuple unpacking: conservative
+                    # `a, b = [], []`: unpacking a tuple written out element by element binds each name to its own element
+                    if len(b.targets) == 1 and isinstance(b.targets[0], (ast.Tuple, ast.List)) and isinstance(b.value, (ast.Tuple, ast.List)) \
+                            and len(b.targets[0].elts) == len(b.value.elts) and all(isinstance(t_, ast.Name) for t_ in b.targets[0].elts):
+                        k_ = [t_.id for t_ in b.targets[0].elts].index(e.id) if e.id in [t_.id for t_ in b.targets[0].elts] else None
+                        if k_ is not None:
+                            ok, why = self.fresh(b.value.elts[k_], fn, mi, ci, stack, depth - 1)
+                            if not ok:
+                                return False, f"{e.id} = {unparse(b.value.elts[k_])[:40]} ({why})"
+                            continue
+                    # other tuple unpacking: conservative
                     if not (len(b.targets) == 1 and isinstance(b.targets[0], ast.Name)):
                         return False, f"{e.id} bound by unpacking"
                     # x = f(x, ...) where f returns the parameter it was given: same object
